@@ -82,12 +82,13 @@ def run_model(cmd, requests, starts=(), timeout=1800, stall=MODEL_STALL_S):
         p.wait()
         if got >= want:
             break
-        if len(stalls) >= 12 or time.time() > t_end:
-            raise MachineryError(f"model driver {' '.join(cmd[-1:])}: {len(stalls) + 1} requests without an answer "
-                                 f"(last: request {pos + got + 1}, {why})")
         k = pos + got
         stalls.append((k, why))
         lines.append("model-" + why)
+        if len(stalls) >= 6 or time.time() > t_end:
+            # give up on this stream: the rest is not compared (the unanswered requests are broken ties already)
+            lines.extend([MODEL_SKIPPED] * (len(requests) - len(lines)))
+            break
         nxt = k + 1
         if starts:
             while nxt < len(requests) and requests[nxt].split(" ", 1)[0] not in starts:
